@@ -413,7 +413,12 @@ func InfoNP(np *NP) *resource.Info {
 	return inf
 }
 func InfoANP(a *ANP) *resource.Info {
-	return info(a.K8s(), "policy.networking.k8s.io/v1alpha1", "AdminNetworkPolicy")
+	inf := info(a.K8s(), "policy.networking.k8s.io/v1alpha1", "AdminNetworkPolicy")
+	if int(int32(a.Prio)) != a.Prio {
+		// a priority that does not fit the API's int32: written into the document as it is (a manifest is text)
+		inf.Object.(*unstructured.Unstructured).Object["spec"].(map[string]interface{})["priority"] = int64(a.Prio)
+	}
+	return inf
 }
 
 // InfoBANP emits a BaselineAdminNetworkPolicy with the given metadata.name.
